@@ -125,13 +125,27 @@ def run_case(ctx, gd, doms, out, cond, rng, wrapper=0):
                                                                domain_data=dd)
     except Exception:  # noqa: BLE001 -- judged by the monitor
         pass
+    shown_event = None if res in (None, "!") or res.event is None else \
+        gev.key([x for x in gev.from_event(res.event) if x[2] is not None])
+    if res not in (None, "!") and isinstance(res.event, list) and not wrapper and sum(map(ord, gg.key(gd))) % 4 == 1:
+        # the caller empties the event list of the answer and asks the same question again
+        res.event.clear()
+        kernel.count("C09:asked-again-after-editing-the-first-answer")
+        try:
+            if cond:
+                transport_conditional_counterfactual_query(outcomes=gev.to_pairs(out), conditions=gev.to_pairs(cond),
+                                                           target_domain_graph=g, domain_graphs=dgs, domain_data=dd)
+            else:
+                transport_unconditional_counterfactual_query(event=ev, target_domain_graph=g, domain_graphs=dgs,
+                                                             domain_data=dd)
+        except Exception:  # noqa: BLE001
+            pass
     s = None if res in (None, "!") else str(res.expression)
     nt = s is not None and not isinstance(res.expression, Zero) and ("PP[π" in s or " * " in s)
     ctx.case(f"{gg.key(gd)}|{doms}|{gev.key([x for x in out if x[2] is not None])}|{gev.key(cond)}", nt,
              sample={"graph": gd, "domains": doms, "outcomes": gev.key([x for x in out if x[2] is not None]),
                      "conditions": gev.key(cond), "answer": "FAIL" if res is None else ("raised" if res == "!" else s),
-                     "returned_event": None if res in (None, "!") or res.event is None else
-                     gev.key([x for x in gev.from_event(res.event) if x[2] is not None])})
+                     "returned_event": shown_event})
 
 
 def planted_cross_world(rng, gd):
